@@ -101,6 +101,13 @@ def records_check(run, binary, driver, module, env=None, tier=None, sub=None, ar
                         rec = json.loads(open(f3).read().splitlines()[idx3 - 1])
                         return True, dict(driver=driver, module=module, records=[rec],
                                           note="rejected again in a full re-run of the driver but not when executed alone: the violation depends on state left by earlier scenarios of the same process")
+                if bad3:
+                    # other scenarios are rejected in the re-run: the misbehaviour is real but moves with the
+                    # state of the process (pooled buffers, garbage collection)
+                    f3, idx3, key3 = bad3[0]
+                    rec = json.loads(open(f3).read().splitlines()[idx3 - 1])
+                    return True, dict(driver=driver, module=module, records=[rec], first_seen=key,
+                                      note="not reproducible alone; a full re-run of the driver rejects %d other scenario(s) (first: %s): the violation depends on process state such as pooled buffers" % (len(bad3), key3))
             return bool(bad2), dict(driver=driver, module=module, records=recs)
         run.candidate(key, "record rejected by %s" % module, recheck)
     for dv in meta.get("direct") or []:
